@@ -115,6 +115,14 @@ func (s *Stream) Drain() []byte {
 // Closes returns how often Close was called on this end.
 func (s *Stream) Closes() int { return int(s.closes.Load()) }
 
+// TemporaryErr is a transient failure that is not a timeout (ECONNABORTED, EMFILE, ENOBUFS ... on a real
+// socket): net.Error with Temporary() true and Timeout() false.
+type TemporaryErr struct{ What string }
+
+func (e TemporaryErr) Error() string { return "netsim: transient failure: " + e.What }
+func (TemporaryErr) Timeout() bool   { return false }
+func (TemporaryErr) Temporary() bool { return true }
+
 type timeoutErr struct{}
 
 func (timeoutErr) Error() string   { return "netsim: i/o timeout" }
@@ -283,8 +291,12 @@ type Listener struct {
 	// ClosedErr, if set, is what Accept returns once the listener is closed (listeners that wrap
 	// others - multiplexers, in-memory listeners - have sentinels of their own, not net.ErrClosed).
 	ClosedErr error
-	acceptErr error
+	acceptErr  error
+	acceptErrs int
 }
+
+// AcceptErrors reports how many injected accept errors have been handed out.
+func (l *Listener) AcceptErrors() int { l.mu.Lock(); defer l.mu.Unlock(); return l.acceptErrs }
 
 // FailAccept makes the pending (or next) Accept return err although the listener is not closed: the
 // kind of failure a real listener reports when the process runs out of descriptors.
@@ -326,6 +338,7 @@ func (l *Listener) Accept() (net.Conn, error) {
 		if l.acceptErr != nil {
 			err := l.acceptErr
 			l.acceptErr = nil
+			l.acceptErrs++
 			return nil, err
 		}
 		if l.closed {
@@ -394,7 +407,20 @@ type PacketConn struct {
 	CloseDelay time.Duration
 	// OnSetReadDeadline: see Stream.OnSetReadDeadline.
 	OnSetReadDeadline func(t time.Time)
+	readErr           error
+	readErrs          int
 }
+
+// FailRead makes the pending (or next) ReadFrom return err once although the socket is open.
+func (p *PacketConn) FailRead(err error) {
+	p.mu.Lock()
+	p.readErr = err
+	p.mu.Unlock()
+	p.cond.Broadcast()
+}
+
+// ReadErrors reports how many injected read errors have been handed out.
+func (p *PacketConn) ReadErrors() int { p.mu.Lock(); defer p.mu.Unlock(); return p.readErrs }
 
 // NewPacketConn returns a simulated datagram socket.
 func NewPacketConn() *PacketConn {
@@ -456,6 +482,12 @@ func (p *PacketConn) ReadFrom(b []byte) (int, net.Addr, error) {
 	for {
 		if p.closed {
 			return 0, nil, net.ErrClosed
+		}
+		if p.readErr != nil {
+			err := p.readErr
+			p.readErr = nil
+			p.readErrs++
+			return 0, nil, err
 		}
 		if !p.deadline.IsZero() && !time.Now().Before(p.deadline) {
 			return 0, nil, timeoutErr{}
